@@ -131,7 +131,8 @@ extern "C" {
  * @item @code
  *  void upipe_foo_clean_input(struct upipe *upipe)
  * @end code
- * Free all urefs that have been held, and unblocks all pumps.
+ * Free all urefs that have been held, and unblocks all pumps. It throws no
+ * event (it is called from upipe_foo_free() after upipe_throw_dead()).
  *
  * @item @code
  *  bool upipe_foo_flush_input(struct upipe *upipe)
@@ -314,8 +315,6 @@ static void STRUCTURE##_clean_input(struct upipe *upipe)                    \
     STRUCTURE##_unblock_input(upipe);                                       \
     struct uchain *uchain, *uchain_tmp;                                     \
     ulist_delete_foreach (&s->UREFS, uchain, uchain_tmp) {                  \
-        upipe_dbg_va(upipe, "deleting still-born uref %p",                  \
-                     uref_from_uchain(uchain));                             \
         ulist_delete(uchain);                                               \
         uref_free(uref_from_uchain(uchain));                                \
     }                                                                       \
@@ -330,6 +329,8 @@ static UBASE_UNUSED bool STRUCTURE##_flush_input(struct upipe *upipe)       \
 {                                                                           \
     if (STRUCTURE##_check_input(upipe))                                     \
         return false;                                                       \
+    upipe_dbg_va(upipe, "deleting %u still-born urefs",                     \
+                 STRUCTURE##_from_upipe(upipe)->NB_UREFS);                  \
     STRUCTURE##_clean_input(upipe);                                         \
     STRUCTURE##_init_input(upipe);                                          \
     return true;                                                            \
